@@ -263,7 +263,8 @@ impl Recorder {
                 }
                 "m.ret.lock" => {
                     let id = self.arg[t] as u32;
-                    let destroyed = w.truth().objs.get((id as usize).wrapping_sub(1)).map(|o| o.destroyed).unwrap_or(true);
+                    // (an over-capacity return parks inside Manager::detach: the pool has let go of the object already)
+                    let destroyed = w.truth().objs.get((id as usize).wrapping_sub(1)).map(|o| o.destroyed || o.detaching).unwrap_or(true);
                     if !destroyed {
                         self.refq.push(id);
                     }
@@ -277,7 +278,7 @@ impl Recorder {
             let truth = w.truth();
             self.refq.retain(|id| {
                 let o = &truth.objs[(*id - 1) as usize];
-                !o.destroyed && !o.handed_over
+                !o.destroyed && !o.handed_over && !o.detaching
             });
         }
         let mut e = self.base(w, "step", Some(t));
